@@ -38,6 +38,10 @@ func runReq(svc string, segs [][]byte, wants []reqWant) { runReqX(svc, segs, wan
 func runReqX(svc string, segs [][]byte, wants []reqWant, have bool) {
 	lab := c04Lab()
 	line := segLine("@req", svc, segs)
+	modelled := map[string]bool{"elasticsearch": true, "docker": true, "eos": true, "ethereum": true, "cwmp": true}[svc]
+	if modelled {
+		line = segLine("seg1", svc, segs) // compared with the one-request machine of HT.Relay
+	}
 	verdict := "ok"
 	viol := func(sig, d string) {
 		if verdict == "ok" {
@@ -81,6 +85,22 @@ func runReqX(svc string, segs [][]byte, wants []reqWant, have bool) {
 				}
 			}
 		}
+	}
+	if modelled {
+		var r []string
+		for _, e := range evs {
+			body := e.Get("http.body")
+			if svc != "cwmp" {
+				b, _ := hex.DecodeString(e.Get("payload-hex"))
+				body = string(b)
+			}
+			r = append(r, svc+":"+hxs(e.Get("http.method"), e.Get("http.url"), body))
+		}
+		if got == "hang" {
+			r = []string{"hang"}
+		}
+		emit(line, joinEv(r), verdict, len(evs) > 0)
+		return
 	}
 	emit(line, fmt.Sprintf("events=%d", len(evs)), verdict, len(evs) > 0)
 }
@@ -230,6 +250,16 @@ func genC04Req(tier string, r *Rng) {
 						continue
 					}
 					runReq(svc, [][]byte{req[:c], req[c:]}, wants)
+				}
+				// the stream cut short (end of stream inside the head or the body): no expectation from the
+				// commands, the model and the one-piece reference decide
+				if svc != "ipp" {
+					for _, c := range []int{1, hdrEnd / 2, hdrEnd - 1, hdrEnd, hdrEnd + 1, (hdrEnd + len(req)) / 2, len(req) - 1} {
+						if c > 0 && c < len(req) {
+							runReqX(svc, [][]byte{req[:c]}, nil, false)
+							runReqX(svc, [][]byte{req[:c/2], req[c/2 : c]}, nil, false)
+						}
+					}
 				}
 				// multi-cut and dribble of the head
 				var segs [][]byte
